@@ -22,6 +22,10 @@ CHECKS = {
          "For generated histories (first start, registration, authorizations incl. conflicts, reports incl. equivocation/over-capacity, rotations, restarts) the real server in a victim process is killed at every boundary between system calls on its five files (enumerated from a traced census; the achieved point is read back from the strace log), at every operation boundary, at PRNG instants of a concurrent workload, and inside the multi-page write of a statistics record. After each crash a fresh process restarts the server and requires: start succeeds; state = state decoded from the files = model(P) for acked <= P <= acked + in-flight; no partial registration/authorization/ban/rotation; registration possible iff absent and the registered key honoured; probe ops work; further restarts idempotent. Kills inside an 80/148-byte record write straddling a page boundary are not reachable.",
          "Process-crash model only (kernel keeps completed syscalls; power loss out of scope). Trusts strace/ptrace SIGKILL-at-syscall-entry semantics, the verif snapshot accessor, go-ethereum verification.",
          "DESIGN.md §4 C05"),
+ "C07": ("exploration", "runtime monitoring: sequential model + porcupine linearizability on client-boundary histories; race detector with delay injection at the handlers that read the GCA key",
+         "On every executed history - 30/400 sequential histories with restarts and crash-residue starts, 40/2000 concurrent batches of 2-32 competing valid registrations (overlap measured; half held at a barrier inside the handler) and 6/30 delay-injection cells - the answers of register-gca, authorize-equipment, authorized-servers and equipment-migrate must be linearizable with respect to the model state in {unset, K}; exactly one registration is answered 200; gcaPubKey.dat, the in-memory key and every listed equipment/server/migration match that key, also across restarts; the race detector must report nothing on the GCA key. Histories and schedules are sampled; the race verdict holds only for the interleavings the hooks and stress produced; durability at crash points is C05's.",
+         "Trusts go-ethereum secp256k1 verify, refenc encodings, porcupine v1.3.0 with a partition function argued in the code and cross-checked against the unpartitioned model, VerifSnapshot under the server's own lock, Go's race detector (cgo calls act as global sync points, so a read->Verify->write ordering cannot be reported; the opposite direction is).",
+         "DESIGN.md §4 C07"),
  "C09": ("exploration", "runtime monitor: wire capture at a UDP sink + history.dat byte monitor over random energy-file edit/restart histories (logical tick clock); model-based test of the history store with direct 64-bit-offset file reads",
          "For every generated scenario (sequence of energy-file versions produced by random edits, with client restarts) all datagrams captured per timeslot with power outside {0,1} must be byte-identical, verify under the device key and carry the reference value of the slot's first accepted reading; history.dat is read after every step (header constant, non-zero cells immutable and equal to a first reading). The history store is driven with (timeslot, value) pairs up to 2^32-1 incl. the 32-bit-offset wrap zone against a map model with header, touched-cell, alias-cell and whole-file checks. Held = no violation other than the two registered 32-bit-history findings on the executions run; only emitted datagrams are judged, sync retransmission is C08's.",
          "Trusts lib/efref (independent reference of the energy-file rule, its CSV splitter validated offline against encoding/csv on 4.7M inputs), go-ethereum signature verification, loopback UDP (a lost datagram is simply unjudged), client.VerifTicks as the logical clock.",
